@@ -183,6 +183,45 @@ META = {
         ],
         run_cap_s=120, shrink_tests=300, shrink_s=60,
     ),
+    "C02": _m(
+        "M", "exploration", (800, 200000), (300, 3000),
+        "Each run = one generated model program (world-M generator with distributions on most vars over 9 families, observed / "
+        "parameter / unflagged vars, bare Dist nodes, weak intermediates, transformed vars through every entry point, per_obs on/off, "
+        "optionally user-supplied log_lik / log_prior / log_prob nodes) and a value history of 4-25 ops (assignments incl. to "
+        "transformed vars, partial updates, restores); whenever the model is fully up to date the three totals and every Var.log_prob "
+        "are compared with float64 closed forms; a twin with all per_obs flags flipped must give the same totals. Non-trivial = at "
+        "least one density check on a model with a distribution; distinct = distinct program signature.",
+        "operations applied (value histories)",
+        "distinct (node kinds, families, roles, transform entry points, per_obs flags, user totals) signatures",
+        ["liesel.model: GraphBuilder._add_model_log_*_node, _reduced_sum, Dist.update, Var.log_prob, Var.transform / auto_transform / GraphBuilder.transform", "tfp distributions and bijectors"],
+        ["node functions (bounded primitives)"],
+        [
+            "this property has no schedule, clock or fault in it; it is decided inside the simulator as a step invariant with an independent oracle (seeded generation + oracle, nothing more; DESIGN.md section 4 C02)",
+            "tolerance |diff| <= 1e-4 * (1 + sum |terms|): float32 accumulation vs float64 reference; generated values keep every term O(10)",
+            "DistRegBuilder / degenerate-MVN models are covered by C13's programs, not here",
+        ],
+        run_cap_s=120, shrink_tests=300, shrink_s=60,
+    ),
+    "C14": _m(
+        "M", "exploration", (600, 200000), (300, 3000),
+        "Each run = one generated model program with at least one transformed variable: (distribution, bijector) pairs from "
+        "{Gamma, Exponential, Beta, LogNormal, HalfNormal, InverseGamma, Normal} x {Exp, Softplus, Sigmoid instances; Scale, "
+        "Softplus(hinge_softness), Shift classes with constant or model-dependent arguments; the distribution's default}, applied via "
+        "Var.transform(instance), Var.transform(Class, **args), Var.transform(None), auto_transform at build, and the deprecated "
+        "GraphBuilder.transform (instance / class / default); distribution parameters constant or other variables; then a value history "
+        "of 4-20 ops assigning the new variable and its parents. Non-trivial = at least one density check; distinct = distinct tuple of "
+        "(family, entry point, bijector, role, per_obs) over the transformed variables.",
+        "operations applied (build-op post-conditions + value histories)",
+        "distinct tuples of (family, entry point, bijector, role, per_obs) over the transformed variables of a program",
+        ["liesel.model: Var.transform, _transform_var_with_bijector_instance/_class, auto_transform in build_model, deprecated GraphBuilder.transform/_transform_back", "tfp bijectors / TransformedDistribution"],
+        ["node functions (bounded primitives)"],
+        [
+            "no schedule, clock or fault belongs to this property; it is decided inside the simulator because transform is a build operation of the graph the simulator constructs and the identity must keep holding along value histories (DESIGN.md section 4 C14)",
+            "b and log|b'| are float64 closed forms written in /verif for explicit bijectors; for 'the default' they come from TFP itself (numpy substrate)",
+            "original value 'unchanged' up to the float32 round trip b(b^-1(x)) (rtol 2e-5)",
+        ],
+        run_cap_s=120, shrink_tests=300, shrink_s=60,
+    ),
 }
 
 
@@ -197,6 +236,23 @@ NOT_APPLICABLE["C18"] = (
 )
 
 MANIFEST_TEXT = {
+    "C14": dict(
+        technique="build-op post-conditions and step invariant inside the world-M deterministic simulation: seeded (distribution, bijector, entry point) programs and value histories vs float64 change-of-variables closed forms (no fault/schedule dimension)",
+        design_ref="DESIGN.md section 4 C14",
+        level_text="Seeded generation over distribution/bijector pairs, every transformation entry point (incl. auto-transform and the deprecated "
+        "builder method), constant and model-dependent arguments; post-conditions at transform time (value unchanged, image of the new "
+        "variable, flags, no distribution left) and, after every op, new log-density = original log-density at b(t) + log|b'(t)| and the model "
+        "totals against closed forms. Sampling, not a proof.",
+        level_note="Trusted: scipy closed forms, TFP default bijectors. A pure function of (program, values); the simulator supplies programs and histories.",
+    ),
+    "C02": dict(
+        technique="step invariant inside the world-M deterministic simulation: seeded programs and value histories vs independent float64 closed-form densities (no fault/schedule dimension)",
+        design_ref="DESIGN.md section 4 C02",
+        level_text="Seeded generation of model programs and value histories; after every operation that leaves the model up to date, "
+        "log_prob / log_lik / log_prior / Var.log_prob are compared with scipy float64 closed forms knowing from the plan which variable "
+        "is observed / parameter / transformed / bare; per_obs twins; user-supplied totals forwarded bit-identically. Sampling, not a proof.",
+        level_note="Trusted: scipy.stats closed forms, TFP default bijectors (numpy substrate). The property is a pure function of (program, values); the simulator only supplies the variety of programs and histories.",
+    ),
     "C15": dict(
         technique="deterministic simulation with fault injection: seeded build/pop/copy/save/load/mutate-attempt histories on generated graphs; rejected-operation faults; round-trip twins compared state-for-state",
         design_ref="DESIGN.md section 4 C15, section 3 world M",
